@@ -180,7 +180,7 @@ const SPECIAL_STRINGS: &[&str] = &[
     "a\u{300}e\u{301}",
 ];
 
-pub fn gen_string(rng: &mut Rng) -> String {
+pub fn gen_string(rng: &Rng) -> String {
     if rng.chance(3, 4) {
         rng.pick(SPECIAL_STRINGS).to_string()
     } else {
@@ -190,7 +190,7 @@ pub fn gen_string(rng: &mut Rng) -> String {
     }
 }
 
-pub fn gen_int(rng: &mut Rng) -> SVal {
+pub fn gen_int(rng: &Rng) -> SVal {
     match rng.below(10) {
         0 => SVal::I64(0),
         1 => SVal::I64(-1),
@@ -203,7 +203,7 @@ pub fn gen_int(rng: &mut Rng) -> SVal {
     }
 }
 
-pub fn gen_float(rng: &mut Rng) -> SVal {
+pub fn gen_float(rng: &Rng) -> SVal {
     match rng.below(8) {
         0 => SVal::F64("NaN".into()),
         1 => SVal::F64("inf".into()),
@@ -215,7 +215,7 @@ pub fn gen_float(rng: &mut Rng) -> SVal {
     }
 }
 
-pub fn gen_scalar(rng: &mut Rng) -> SVal {
+pub fn gen_scalar(rng: &Rng) -> SVal {
     match rng.below(8) {
         0 => SVal::None,
         1 => SVal::Bool(rng.chance(1, 2)),
@@ -226,7 +226,7 @@ pub fn gen_scalar(rng: &mut Rng) -> SVal {
     }
 }
 
-fn gen_bytes(rng: &mut Rng) -> Vec<u8> {
+fn gen_bytes(rng: &Rng) -> Vec<u8> {
     match rng.below(4) {
         0 => vec![],
         1 => vec![0xff, 0xfe, 0x00, 0x41],
@@ -235,7 +235,7 @@ fn gen_bytes(rng: &mut Rng) -> Vec<u8> {
     }
 }
 
-pub fn gen_any(rng: &mut Rng, depth: usize) -> SVal {
+pub fn gen_any(rng: &Rng, depth: usize) -> SVal {
     if depth == 0 || rng.chance(1, 2) {
         return gen_scalar(rng);
     }
@@ -247,7 +247,7 @@ pub fn gen_any(rng: &mut Rng, depth: usize) -> SVal {
     }
 }
 
-pub fn gen_map(rng: &mut Rng, depth: usize) -> SVal {
+pub fn gen_map(rng: &Rng, depth: usize) -> SVal {
     let n = rng.below(5);
     let mut kvs: Vec<(SKey, SVal)> = Vec::new();
     for i in 0..n {
@@ -266,7 +266,7 @@ pub fn gen_map(rng: &mut Rng, depth: usize) -> SVal {
     SVal::Map(kvs)
 }
 
-fn gen_user(rng: &mut Rng, i: usize) -> SVal {
+fn gen_user(rng: &Rng, i: usize) -> SVal {
     SVal::map(vec![
         ("name", SVal::Str(if rng.chance(1, 2) { gen_string(rng) } else { format!("user{}", i) })),
         ("age", SVal::I64(rng.irange(0, 90))),
@@ -321,7 +321,7 @@ pub const SCHEMA: &[(&str, Kind)] = &[
 ];
 
 /// `variant`: 0 = rich context, 1 = empty, 2 = sparse/perturbed kinds.
-pub fn gen_context(rng: &mut Rng, variant: usize) -> SCtx {
+pub fn gen_context(rng: &Rng, variant: usize) -> SCtx {
     let mut out = Vec::new();
     if variant == 1 {
         return SCtx(out);
@@ -401,7 +401,7 @@ pub fn gen_context(rng: &mut Rng, variant: usize) -> SCtx {
     SCtx(out)
 }
 
-pub fn gen_global_context(rng: &mut Rng) -> SCtx {
+pub fn gen_global_context(rng: &Rng) -> SCtx {
     let mut out = vec![("g_only".to_string(), SVal::Str(gen_string(rng)))];
     // shadow a few keys of the render context
     for name in ["s_any", "n_int", "m"] {
